@@ -126,7 +126,7 @@ def gen_selector(rng, shape, want=None, allow_list=False):
                 'c': [rng.choice([None, 1, min(2, nc)]), None, cs if cs > 1 else None],
                 'rl': False, 'cl': False}
     if kind == 'list':
-        n = rng.randint(1, min(4, nr * nc))
+        n = rng.randint(2 if nr * nc >= 2 else 1, min(4, nr * nc))
         cells = rng.sample([(r, c) for r in range(1, nr + 1) for c in range(1, nc + 1)], n)
         return {'k': 'list', 'cells': [list(x) for x in cells], 'forms': [rng.choice(['str', 'tup', 'lab']) for _ in cells]}
     r0 = rng.randint(1, nr)
@@ -251,6 +251,11 @@ class GenA:
             rows = [f"r{i}" for i in range(1, nr + 1)] if rng.random() < 0.5 else [chr(ord('h') + i) for i in range(nr)]
         if rng.random() < 0.25:
             cols = [f"c{j}" for j in range(1, nc + 1)]
+        elif rng.random() < 0.2:
+            # digit-only labels that do not coincide with positions (offset or reversed numbering)
+            cols = [str(j) for j in (range(0, nc) if rng.random() < 0.5 else range(nc, 0, -1))]
+            if rng.random() < 0.3 and isinstance(rows, int):
+                rows = [str(i) for i in range(nr + 1, 1, -1)]
         cap = fmt_quantity(rng, round_sig(rng, self.volume_scale() * rng.uniform(0.5, 3), True), 'L')
         return {'op': 'new_plate', 'name': name, 'cap': cap, 'rows': rows, 'cols': cols}
 
@@ -359,9 +364,9 @@ class GenA:
             dshape = md.shape
         # selectors by form
         if form == 'c>N':
-            dsel = gen_selector(rng, dshape, allow_list=self.p.get('allow_known', False))
+            dsel = gen_selector(rng, dshape, allow_list=True)
         elif form == 'N>c':
-            ssel = self.sel_biased_nonempty(ms, allow_list=self.p.get('allow_known', False))
+            ssel = self.sel_biased_nonempty(ms, allow_list=True)
         elif form == '1>N':
             ne = self.nonempty_cells(ms)
             if ne and rng.random() < 0.9:
@@ -369,9 +374,9 @@ class GenA:
                 ssel = {'k': 'cell', 'r': r + 1, 'c': c + 1, 'form': rng.choice(['str', 'tup', 'lab'])}
             else:
                 ssel = gen_selector(rng, sshape, 'cell')
-            dsel = gen_selector(rng, dshape)
+            dsel = gen_selector(rng, dshape, allow_list=True)
         elif form == 'N>1':
-            ssel = self.sel_biased_nonempty(ms)
+            ssel = self.sel_biased_nonempty(ms, allow_list=True)
             dsel = gen_selector(rng, dshape, 'cell')
         elif form == 'N>N':
             h = rng.randint(1, min(sshape[0], dshape[0]))
